@@ -150,6 +150,8 @@ type target struct {
 	free     map[string][]string // callee text -> names of the fields of a struct-literal argument, in the order they are passed:
 	// a call `return callee(args)` is left uninterpreted — the definition is polymorphic in a result type `R`, takes the callee
 	// as a function into `R` and an injection `ret` of ordinary results into `R`
+	funs     map[string]int    // callee text -> index of the *bytes.Buffer argument it writes to: the callee is a function parameter
+	// `args → (new buffer × result)` (an input of the definition, like an oracle, but depending on its arguments)
 	freeStmt map[string][]string // like free, for calls in statement position: the function parameter takes the call's arguments
 	// and the result of everything that follows (`callee args rest : R`)
 	doc string
@@ -216,6 +218,13 @@ var targets = []target{
 	{pkg: "gws", fn: "limitedReader.Read", lean: "limitedReader_Read",
 		oracles: map[string]string{"c.R.Read(p)": "srcRead"},
 		doc:     "the counting reader in front of the inflater; what the source's Read returned is an input"},
+	{pkg: "gws", fn: "Conn.compressData", lean: "Conn_compressData",
+		funs:    map[string]int{"c.deflater.Compress": 1},
+		oracles: map[string]string{"internal.AlphabetNumeric.Uint32()": "maskNum"},
+		doc:     "compressData: which dictionary the compressor gets (none for a broadcast frame), the header for the compressed size, masking and back-fill; deflater.Compress is a function parameter (payload, buffer, dictionary -> new buffer, error)"},
+	{pkg: "gws", fn: "deflater.Compress", lean: "deflater_Compress_stripTail",
+		from: "if n := dst.Len(); n >= 4", to: "return nil",
+		doc: "the removal of the sync-flush trailer 00 00 ff ff from the compressor's output (RFC 7692 7.2.1)"},
 	{pkg: "gws", fn: "PermessageDeflate.setThreshold", lean: "PermessageDeflate_setThreshold"},
 	{pkg: "gws", fn: "initServerOption", lean: "initServerOption_limits",
 		from: "if c.ReadMaxPayloadSize <= 0", to: "if c.Authorize == nil",
@@ -1253,12 +1262,11 @@ func (f *fn) block(list []ast.Stmt, k cont) string {
 			return sb.String()
 		}
 		for i, r := range st.Results {
-			v := f.expr(r)
-			// a status code returned as an error
-			if i < len(f.retTypes) && f.retTypes[i] == "(Option GoErr)" && isStatusCode(f.typeOf(r)) {
-				v = fmt.Sprintf("(some (GoErr.status %s))", v)
+			lt := ""
+			if i < len(f.retTypes) {
+				lt = f.retTypes[i]
 			}
-			vals = append(vals, v)
+			vals = append(vals, f.resultValue(r, lt))
 		}
 		f.flush(&sb)
 		sb.WriteString(f.ret(vals))
@@ -1302,6 +1310,37 @@ func (f *fn) block(list []ast.Stmt, k cont) string {
 		}
 		return sb.String() + next()
 	case *ast.AssignStmt:
+		if len(st.Lhs) == 1 && len(st.Rhs) == 1 {
+			if c, ok := st.Rhs[0].(*ast.CallExpr); ok {
+				ctext := strings.Join(strings.Fields(f.src(c.Fun)), "")
+				if mi, ok := f.t.funs[ctext]; ok {
+					pname := leanIdent(strings.ReplaceAll(ctext, ".", "_"))
+					var args, tys []string
+					for _, a := range c.Args {
+						args = append(args, f.expr(a))
+						tys = append(tys, f.lt(a))
+					}
+					rty := ""
+					if id, ok := st.Lhs[0].(*ast.Ident); ok && f.p.info.Defs[id] != nil {
+						rty, _ = f.tr.leanType(f.p.info.Defs[id].Type())
+					} else {
+						rty = f.lt(st.Lhs[0])
+					}
+					lt := "(" + strings.Join(tys, " → ") + " → (" + tys[mi] + " × " + rty + "))"
+					if _, seen := f.oracleSet[pname]; !seen {
+						f.oracleSet[pname] = lt
+						f.oracleOrd = append(f.oracleOrd, pname)
+					}
+					mut := f.lvalueName(c.Args[mi])
+					if id, ok := st.Lhs[0].(*ast.Ident); ok {
+						f.locals[id.Name] = true
+					}
+					f.flush(&sb)
+					fmt.Fprintf(&sb, "let (%s, %s) := %s %s\n", mut, f.lvalueName(st.Lhs[0]), pname, strings.Join(args, " "))
+					return sb.String() + next()
+				}
+			}
+		}
 		if len(st.Lhs) == 2 && len(st.Rhs) == 1 {
 			if line, ok := f.tupleCall(st); ok {
 				f.flush(&sb)
